@@ -1,28 +1,29 @@
-//! Property C20 — track sample queues never duplicate, reorder, corrupt or leak samples —
-//! decided by controlled-scheduler exploration (shuttle 0.9.3) of the real
-//! `SampleStreamSource` / `SampleStreamTrack` / `SpscRing` code built with `--cfg rustrtc_verif`,
-//! whose atomics and pop lock call the scheduling point registered below before and after
-//! every operation.
+//! Second scenario family of this crate: the thread-interleaving part of property C12 ("data
+//! channel messages keep their boundaries, channel and delivery mode ... for any number of
+//! channels and concurrent senders"). 2..8 OS-thread senders call the real
+//! `SctpTransport::send_data` of ONE association concurrently under shuttle's controlled
+//! scheduler; the association's outbound queue lock (`SctpInner.outbound_queue`, a
+//! `verif_hooks::sync::Mutex` under `--cfg rustrtc_verif`) is the scheduling point. The
+//! single-threaded tokio simulation cannot reach these interleavings: a code region without
+//! `.await` is atomic there, whatever it does with locks.
 //!
-//!   c20 check <quick|thorough>      explore, judge, triage against known findings, write evidence
-//!   c20 --replay <replay.json>      re-run one persisted failing schedule (exit 1 = reproduced)
-//!   c20 --list <quick|thorough>     print the workloads of a tier
-//!   c20 --worker ...                internal: explore a list of scenario ids, JSON lines on stdout
-//!   c20 c12 <check|--replay|--list> second scenario family (property C12, concurrent SCTP senders): see sctp_send/mod.rs
+//!   c20 c12 check <quick|thorough>   explore, judge, triage against known findings, write evidence
+//!   c20 c12 --replay <replay.json>   re-run one persisted failing schedule (exit 1 = reproduced)
+//!   c20 c12 --list <quick|thorough>  print the workloads of a tier
+//!   c20 c12 --worker ...             internal
 //!
-//! Exit codes: 0 held (KNOWN-FINDING lines allowed) / 1 violation / 2 harness error.
-mod exec;
-mod known;
-mod miri;
-mod sched;
-mod sctp_send;
-mod workload;
+//! Evidence: <root>/evidence/C12-threads.json (property_id "C12"); replays:
+//! <root>/replays/C12-threads-*.json (+ .schedule.txt). Exit codes as for C20: 0 / 1 / 2.
+pub mod exec;
+pub mod workload;
 
-use exec::ORACLE_TAG;
-use sched::{Recording, REC};
+use crate::sched::{self, Recording, REC};
+use crate::workload::mix;
+use crate::{newest_schedule_file, panic_text, process_cpu_time, root, seed_from_env, shuttle_config, slug, Kind, DEFAULT_SEED, MAX_FAILURES_PER_SCENARIO, MAX_STEPS};
+use exec::{Prepared, ORACLE_TAG};
 use serde_json::{json, Value};
 use shuttle::scheduler::{PctScheduler, RandomScheduler, ReplayScheduler};
-use shuttle::{Config, FailurePersistence, MaxSteps, Runner};
+use shuttle::Runner;
 use shuttle_engine::scheduler::serialization::serialize_schedule;
 use std::collections::{BTreeMap, BTreeSet};
 use std::io::{BufRead, Write};
@@ -30,125 +31,37 @@ use std::panic::{catch_unwind, AssertUnwindSafe};
 use std::path::{Path, PathBuf};
 use std::process::{Command, Stdio};
 use std::sync::Arc;
-use workload::{generate, mix, Workload};
+use workload::{generate, Workload};
 
-const PROP: &str = "C20";
-const DEFAULT_SEED: u64 = 20260925;
-const MAX_STEPS: usize = 200_000;
-const STACK: usize = 0x40000;
-/// a scenario that already failed this often is established as violating; the rest of its
-/// schedule budget is skipped (and reported as skipped)
-const MAX_FAILURES_PER_SCENARIO: usize = 6;
-/// under PCT every n-th scheduling point is a yield (see exec::sched_point)
-const PCT_YIELD_EVERY: u32 = 8;
-/// an execution takes well under a millisecond; one that burns this much CPU time without a
-/// single scheduling decision sits in a loop that contains no scheduling point (seen:
-/// SpscRing::drop with head > tail). CPU time, not wall time: on a loaded or paused machine a
-/// healthy worker can go seconds without being run.
-const HANG_AFTER_CPU: std::time::Duration = std::time::Duration::from_millis(2000);
-/// no progress and no CPU use for this long is not a finding about rustrtc but a stuck harness
+const PROP: &str = "C12";
+/// file stem of everything this family writes (evidence, replays)
+const STEM: &str = "C12-threads";
+/// CPU time one execution may burn without a single scheduling decision before it is reported
+/// as hung (a fragment loop that never ends also eats memory, so this is tighter than C20's)
+const HANG_AFTER_CPU: std::time::Duration = std::time::Duration::from_millis(1000);
 const STALL_AFTER_WALL: std::time::Duration = std::time::Duration::from_secs(180);
 const EXIT_HANG: i32 = 3;
 const EXIT_STALL: i32 = 4;
-
-/// CPU time (user + system) this process has used so far
-fn process_cpu_time() -> Option<std::time::Duration> {
-    // /proc/self/stat: fields 14 and 15 are utime and stime in USER_HZ (100 per second on Linux);
-    // the command name (field 2) may contain spaces, so count from the closing parenthesis
-    let s = std::fs::read_to_string("/proc/self/stat").ok()?;
-    let rest = &s[s.rfind(')')? + 1..];
-    let f: Vec<&str> = rest.split_whitespace().collect();
-    let ticks = f.get(11)?.parse::<u64>().ok()? + f.get(12)?.parse::<u64>().ok()?;
-    Some(std::time::Duration::from_millis(ticks * 10))
-}
-
-/// what the watchdog needs to describe the execution in progress
-#[derive(Clone, Default)]
-struct HangCtx {
-    active: bool,
-    scenario: u32,
-    scheduler: String,
-    scheduler_seed: u64,
-    yield_every: u32,
-}
-static HANG_CTX: std::sync::Mutex<HangCtx> = std::sync::Mutex::new(HangCtx { active: false, scenario: 0, scheduler: String::new(), scheduler_seed: 0, yield_every: 0 });
-static EXECUTIONS_IN_SCENARIO: std::sync::atomic::AtomicU64 = std::sync::atomic::AtomicU64::new(0);
-
-fn set_hang_ctx(c: HangCtx) {
-    *HANG_CTX.lock().unwrap_or_else(|e| e.into_inner()) = c;
-}
-
-/// Watches the progress counter from a plain OS thread. `on_hang` gets the description of the
-/// stuck execution and decides how the process ends (it must not return).
-fn spawn_watchdog(on_hang: impl Fn(HangCtx, Value) + Send + 'static) {
-    std::thread::spawn(move || {
-        let mut last = (sched::PROGRESS.load(std::sync::atomic::Ordering::Relaxed), std::time::Instant::now(), process_cpu_time());
-        loop {
-            std::thread::sleep(std::time::Duration::from_millis(100));
-            let now = sched::PROGRESS.load(std::sync::atomic::Ordering::Relaxed);
-            let ctx = HANG_CTX.lock().unwrap_or_else(|e| e.into_inner()).clone();
-            if now != last.0 || !ctx.active {
-                last = (now, std::time::Instant::now(), process_cpu_time());
-                continue;
-            }
-            let burnt = match (last.2, process_cpu_time()) {
-                (Some(a), Some(b)) => b.saturating_sub(a),
-                // no /proc: fall back to wall time with a generous margin
-                _ => last.1.elapsed() / 5,
-            };
-            if burnt < HANG_AFTER_CPU && last.1.elapsed() >= STALL_AFTER_WALL {
-                eprintln!("worker made no progress and used no CPU for {} s", STALL_AFTER_WALL.as_secs());
-                std::process::exit(EXIT_STALL);
-            }
-            if burnt >= HANG_AFTER_CPU {
-                let sched = sched::current_schedule();
-                let log = exec::current_log_summary();
-                let f = json!({
-                    "oracle": "C20.ub", "kind": "hang",
-                    "detail": format!("an execution burnt {} ms of CPU time without one scheduling decision: a thread loops without reaching any atomic or lock operation (SpscRing::drop walks from head to tail and never ends once corrupted indices leave head > tail)", HANG_AFTER_CPU.as_millis()),
-                    "scheduler": ctx.scheduler, "scheduler_seed": ctx.scheduler_seed, "yield_every": ctx.yield_every,
-                    "schedule": serialize_schedule(&sched), "schedule_steps": sched.len(), "schedule_file": Value::Null,
-                    "persisted_matches_recorder": Value::Null,
-                    "log": log.as_ref().map(|l| l.0.clone()).unwrap_or(Value::Null),
-                    "log_hash": format!("{:016x}", log.as_ref().map(|l| l.1).unwrap_or(0)),
-                });
-                on_hang(ctx, f);
-                std::process::exit(EXIT_HANG);
-            }
-        }
-    });
-}
+/// replay-inner: the recorded schedule cannot be followed by this build
+const EXIT_DIVERGED: i32 = 5;
 
 struct Tier {
     name: &'static str,
     scenarios: u32,
     random_per_scenario: usize,
     pct_per_scenario: usize,
-    /// Miri seeds per driver mode (0 = Miri is not part of this tier)
-    miri_seeds: u64,
 }
 fn tier(name: &str) -> Option<Tier> {
+    // C12T_SCALE=n multiplies the schedules per scenario (validation at n x budget)
+    let scale = std::env::var("C12T_SCALE").ok().and_then(|v| v.parse::<usize>().ok()).unwrap_or(1).max(1);
     match name {
-        "quick" => Some(Tier { name: "quick", scenarios: 256, random_per_scenario: 28000, pct_per_scenario: 12000, miri_seeds: 0 }),
-        "thorough" => Some(Tier { name: "thorough", scenarios: 3072, random_per_scenario: 40000, pct_per_scenario: 20000, miri_seeds: 64 }),
+        "quick" => Some(Tier { name: "quick", scenarios: 256, random_per_scenario: 14000 * scale, pct_per_scenario: 6000 * scale }),
+        "thorough" => Some(Tier { name: "thorough", scenarios: 2048, random_per_scenario: 28000 * scale, pct_per_scenario: 12000 * scale }),
         _ => None,
     }
 }
 
-fn root() -> String {
-    let p = Path::new(concat!(env!("CARGO_MANIFEST_DIR"), "/.."));
-    p.canonicalize().unwrap_or_else(|_| p.to_path_buf()).to_string_lossy().into_owned()
-}
-
-fn seed_from_env() -> Result<u64, String> {
-    match std::env::var("VERIF_SEED") {
-        Ok(s) if !s.trim().is_empty() => s.trim().parse::<u64>().map_err(|e| format!("VERIF_SEED={s:?}: {e}")),
-        _ => Ok(DEFAULT_SEED),
-    }
-}
-
-/// scenario ids of a tier whose workloads are pairwise different (a later id that expands to
-/// the same workload as an earlier one is left out, so (scenario, schedule) pairs stay distinct)
+/// scenario ids of a tier whose workloads are pairwise different
 fn scenarios_of(seed: u64, t: &Tier) -> Vec<Workload> {
     let mut seen = BTreeSet::new();
     let mut out = vec![];
@@ -163,28 +76,28 @@ fn scenarios_of(seed: u64, t: &Tier) -> Vec<Workload> {
     out
 }
 
-fn main() {
-    let args: Vec<String> = std::env::args().skip(1).collect();
-    let code = match args.first().map(|s| s.as_str()) {
+fn usage() -> i32 {
+    eprintln!("usage: c20 c12 check <quick|thorough> | c20 c12 --replay <file.json> [--log] | c20 c12 --list <quick|thorough>");
+    2
+}
+
+pub fn main(args: &[String]) -> i32 {
+    match args.first().map(|s| s.as_str()) {
         Some("check") => match args.get(1).and_then(|t| tier(t)) {
             Some(t) => check(t),
             None => usage(),
         },
-        Some("c12") => sctp_send::main(&args[1..]),
-        // a replay file says itself which family wrote it
-        Some("--replay") if args.get(1).map(|p| sctp_send::owns_replay(p)).unwrap_or(false) => sctp_send::main(&args),
         Some("--replay") => match args.get(1) {
             Some(p) => replay_outer(p, args.iter().any(|a| a == "--log")),
             None => usage(),
         },
         Some("--replay-inner") => match args.get(1) {
-            Some(p) => replay(p),
+            Some(p) => replay(p, args.iter().any(|a| a == "--log")),
             None => usage(),
         },
         Some("--list") => match args.get(1).and_then(|t| tier(t)) {
             Some(t) => {
-                let seed = seed_from_env().unwrap_or(DEFAULT_SEED);
-                for w in scenarios_of(seed, &t) {
+                for w in scenarios_of(seed_from_env().unwrap_or(DEFAULT_SEED), &t) {
                     println!("{}", w.to_json());
                 }
                 0
@@ -192,88 +105,101 @@ fn main() {
             None => usage(),
         },
         Some("--worker") => worker(&args[1..]),
+        Some("--explore-file") => match args.get(1) {
+            Some(p) => explore_file(p),
+            None => usage(),
+        },
         _ => usage(),
-    };
-    std::process::exit(code);
-}
-
-fn usage() -> i32 {
-    eprintln!("usage: c20 check <quick|thorough> | c20 --replay <file.json> | c20 --list <quick|thorough> | c20 c12 <check <quick|thorough> | --replay <file.json> | --list <quick|thorough>>");
-    2
-}
-
-// =============================================================================================
-// one scenario, explored in this process
-// =============================================================================================
-fn shuttle_config(persist_dir: Option<PathBuf>) -> Config {
-    let mut c = Config::new();
-    c.stack_size = STACK;
-    c.max_steps = MaxSteps::FailAfter(MAX_STEPS);
-    c.failure_persistence = match persist_dir {
-        Some(d) => FailurePersistence::File(Some(d)),
-        None => FailurePersistence::None,
-    };
-    c.silence_warnings = true;
-    c
-}
-
-fn install_process_hooks() {
-    // silence the default "thread panicked" report; shuttle chains its own hook (which persists
-    // the failing schedule) in front of this one
-    std::panic::set_hook(Box::new(|_| {}));
-    rustrtc::verif_hooks::sync::set_sched_point(exec::sched_point);
-    // track ids come from rustrtc's random helper; pin it so nothing in a run depends on the OS
-    rustrtc::verif_hooks::set_random_source(Some(Box::new(|b: &mut [u8]| b.fill(0x20))));
-}
-
-fn panic_text(p: &(dyn std::any::Any + Send)) -> String {
-    if let Some(s) = p.downcast_ref::<String>() {
-        s.clone()
-    } else if let Some(s) = p.downcast_ref::<&str>() {
-        s.to_string()
-    } else {
-        "<non-string panic payload>".into()
     }
 }
 
-/// (oracle, kind, detail) of a failed execution, from the panic text and the execution log
-fn classify(msg: &str, log: &Option<(Value, u64)>) -> (String, String, String) {
+/// true if the replay file at `path` belongs to this family (lets `c20 --replay` route by content)
+pub fn owns_replay(path: &str) -> bool {
+    std::fs::read_to_string(path).ok().and_then(|t| serde_json::from_str::<Value>(&t).ok()).map(|d| d["property"] == json!(PROP) || d["workload"]["scenario_family"] == json!("sctp_send")).unwrap_or(false)
+}
+
+// =============================================================================================
+// process-wide set-up
+// =============================================================================================
+fn install_process_hooks() {
+    std::panic::set_hook(Box::new(|_| {}));
+    rustrtc::verif_hooks::sync::set_sched_point(exec::sched_point);
+    // the SCTP cookie key and anything else that asks rustrtc's random helper: pinned
+    rustrtc::verif_hooks::set_random_source(Some(Box::new(|b: &mut [u8]| b.fill(0x20))));
+}
+
+fn make_certificate() -> Result<rustrtc::transports::dtls::Certificate, String> {
+    // before the random source is pinned: key generation wants real entropy, and nothing the
+    // senders do depends on the certificate (the DTLS handshake is never run)
+    rustrtc::transports::dtls::generate_certificate().map_err(|e| format!("generate_certificate: {e}"))
+}
+
+#[derive(Clone, Default)]
+struct HangCtx {
+    active: bool,
+    scenario: u32,
+    scheduler: String,
+    scheduler_seed: u64,
+    yield_every: u32,
+}
+static HANG_CTX: std::sync::Mutex<HangCtx> = std::sync::Mutex::new(HangCtx { active: false, scenario: 0, scheduler: String::new(), scheduler_seed: 0, yield_every: 0 });
+static EXECUTIONS_IN_SCENARIO: std::sync::atomic::AtomicU64 = std::sync::atomic::AtomicU64::new(0);
+fn set_hang_ctx(c: HangCtx) {
+    *HANG_CTX.lock().unwrap_or_else(|e| e.into_inner()) = c;
+}
+
+/// an execution that burns CPU without reaching a scheduling decision loops inside rustrtc
+/// (e.g. a fragment loop whose offset never advances); shuttle's step bound cannot see that
+fn spawn_watchdog(on_hang: impl Fn(HangCtx, Value) + Send + 'static) {
+    std::thread::spawn(move || {
+        let mut last = (sched::PROGRESS.load(std::sync::atomic::Ordering::Relaxed), std::time::Instant::now(), process_cpu_time());
+        loop {
+            std::thread::sleep(std::time::Duration::from_millis(50));
+            let now = sched::PROGRESS.load(std::sync::atomic::Ordering::Relaxed);
+            let ctx = HANG_CTX.lock().unwrap_or_else(|e| e.into_inner()).clone();
+            if now != last.0 || !ctx.active {
+                last = (now, std::time::Instant::now(), process_cpu_time());
+                continue;
+            }
+            let burnt = match (last.2, process_cpu_time()) {
+                (Some(a), Some(b)) => b.saturating_sub(a),
+                _ => last.1.elapsed() / 5,
+            };
+            if burnt < HANG_AFTER_CPU && last.1.elapsed() >= STALL_AFTER_WALL {
+                eprintln!("worker made no progress and used no CPU for {} s", STALL_AFTER_WALL.as_secs());
+                std::process::exit(EXIT_STALL);
+            }
+            if burnt >= HANG_AFTER_CPU {
+                let s = sched::current_schedule();
+                let f = json!({
+                    "oracle": "C12.progress", "kind": "hang",
+                    "detail": format!("an execution burnt {} ms of CPU time without one scheduling decision: a sender loops inside send_data without reaching the queue lock or returning", HANG_AFTER_CPU.as_millis()),
+                    "scheduler": ctx.scheduler, "scheduler_seed": ctx.scheduler_seed, "yield_every": ctx.yield_every,
+                    "schedule": serialize_schedule(&s), "schedule_steps": s.len(), "schedule_file": Value::Null,
+                    "persisted_matches_recorder": Value::Null, "log": Value::Null, "log_hash": "0000000000000000",
+                });
+                on_hang(ctx, f);
+                std::process::exit(EXIT_HANG);
+            }
+        }
+    });
+}
+
+/// (oracle, kind, detail) of a failed execution
+fn classify(msg: &str) -> (String, String, String) {
     if let Some(rest) = msg.strip_prefix(ORACLE_TAG) {
         let mut it = rest.splitn(3, '|');
         let (o, k, d) = (it.next().unwrap_or("?"), it.next().unwrap_or("?"), it.next().unwrap_or(""));
         return (o.into(), k.into(), d.into());
     }
+    let first = msg.lines().next().unwrap_or("");
     if msg.contains("deadlock!") {
-        // recv() is the only blocking call in a scenario, producers never block: every thread
-        // but the consumer (and the joiner waiting for it) has finished, so every handle is gone
-        let all_dropped = log.as_ref().map(|(l, _)| l["all_sources_dropped"] == json!(true)).unwrap_or(false);
-        let kind = if all_dropped { "recv_deadlock_after_close" } else { "deadlock_with_live_source" };
-        return ("C20.eos".into(), kind.into(), format!("consumer parked in recv() for ever after every producer finished and dropped its source handle; shuttle: {}", msg.lines().next().unwrap_or("")));
+        return ("C12.progress".into(), "deadlock".into(), format!("senders parked for ever (on a channel's send lock or on the flow-control wait) with nobody left to wake them; shuttle: {first}"));
     }
     if msg.contains("exceeded max_steps") {
-        return ("C20.eos".into(), "step_limit".into(), format!("no end within {MAX_STEPS} scheduling steps: {}", msg.lines().next().unwrap_or("")));
+        return ("C12.progress".into(), "step_limit".into(), format!("no end within {MAX_STEPS} scheduling steps: {first}"));
     }
-    ("C20.ub".into(), "panic".into(), format!("panic inside the run: {}", msg.lines().next().unwrap_or("")))
-}
-
-#[derive(Clone, Copy, Debug)]
-enum Kind {
-    Random,
-    Pct(usize),
-}
-impl Kind {
-    fn label(&self) -> String {
-        match self {
-            Kind::Random => "random".into(),
-            Kind::Pct(d) => format!("pct(depth={d})"),
-        }
-    }
-    fn yield_every(&self) -> u32 {
-        match self {
-            Kind::Random => 0,
-            Kind::Pct(_) => PCT_YIELD_EVERY,
-        }
-    }
+    ("C12.progress".into(), "panic".into(), format!("panic inside the run: {first}"))
 }
 
 struct Failure {
@@ -291,17 +217,14 @@ struct Failure {
     log_hash: u64,
 }
 
-fn newest_schedule_file(dir: &Path) -> Option<PathBuf> {
-    let mut v: Vec<PathBuf> = std::fs::read_dir(dir).ok()?.filter_map(|e| e.ok()).map(|e| e.path()).filter(|p| p.file_name().and_then(|n| n.to_str()).map(|n| n.starts_with("schedule") && n.ends_with(".txt")).unwrap_or(false)).collect();
-    v.sort();
-    v.pop()
-}
-
-fn explore_scenario(w: &Workload, seed: u64, t: &Tier, workdir: &Path) -> Value {
+// =============================================================================================
+// one scenario, explored in this process
+// =============================================================================================
+fn explore_scenario(p: Arc<Prepared>, seed: u64, t: &Tier, workdir: &Path) -> Value {
     let t0 = std::time::Instant::now();
+    let w = &p.w;
     REC.with(|r| r.borrow_mut().reset_scenario());
     exec::STATS.with(|s| *s.borrow_mut() = exec::Stats::default());
-    let wl = Arc::new(w.clone());
     let mut failures: Vec<Failure> = vec![];
     let mut failure_counts: BTreeMap<String, u64> = BTreeMap::new();
     let mut skipped = 0usize;
@@ -315,16 +238,16 @@ fn explore_scenario(w: &Workload, seed: u64, t: &Tier, workdir: &Path) -> Value 
                 break;
             }
             let kind = if is_pct { Kind::Pct(2 + (chunk % 4) as usize) } else { Kind::Random };
-            let sseed = mix(seed, 0x5C4ED ^ ((w.id as u64) << 20), chunk);
+            let sseed = mix(seed, 0xC125_C4ED ^ ((w.id as u64) << 20), chunk);
             chunk += 1;
             exec::set_yield_every(kind.yield_every());
             set_hang_ctx(HangCtx { active: true, scenario: w.id, scheduler: kind.label(), scheduler_seed: sseed, yield_every: kind.yield_every() });
             let before = REC.with(|r| r.borrow().executions_started);
             let cfg = shuttle_config(Some(workdir.to_path_buf()));
-            let wl2 = wl.clone();
+            let p2 = p.clone();
             let res = catch_unwind(AssertUnwindSafe(|| match kind {
-                Kind::Random => Runner::new(Recording(RandomScheduler::new_from_seed(sseed, remaining)), cfg).run(move || exec::body(&wl2)),
-                Kind::Pct(d) => Runner::new(Recording(PctScheduler::new_from_seed(sseed, d, remaining)), cfg).run(move || exec::body(&wl2)),
+                Kind::Random => Runner::new(Recording(RandomScheduler::new_from_seed(sseed, remaining)), cfg).run(move || exec::body(&p2)),
+                Kind::Pct(d) => Runner::new(Recording(PctScheduler::new_from_seed(sseed, d, remaining)), cfg).run(move || exec::body(&p2)),
             }));
             exec::leave_exec();
             set_hang_ctx(HangCtx::default());
@@ -334,16 +257,16 @@ fn explore_scenario(w: &Workload, seed: u64, t: &Tier, workdir: &Path) -> Value 
             remaining = remaining.saturating_sub(ran.max(1));
             match res {
                 Ok(_) => REC.with(|r| r.borrow_mut().finish_execution(true)),
-                Err(p) => {
+                Err(pl) => {
                     REC.with(|r| r.borrow_mut().finish_execution(false));
-                    let msg = panic_text(&*p);
+                    let msg = panic_text(&*pl);
                     let log = exec::current_log_summary();
-                    let (oracle, k, detail) = classify(&msg, &log);
+                    let (oracle, k, detail) = classify(&msg);
                     let key = format!("{oracle}|{k}");
                     let first_of_its_kind = !failure_counts.contains_key(&key);
                     *failure_counts.entry(key).or_insert(0) += 1;
-                    let sched = sched::current_schedule();
-                    let recorded = serialize_schedule(&sched);
+                    let s = sched::current_schedule();
+                    let recorded = serialize_schedule(&s);
                     let file = newest_schedule_file(workdir);
                     let persisted = file.as_ref().and_then(|f| std::fs::read_to_string(f).ok());
                     let mut kept = None;
@@ -365,9 +288,8 @@ fn explore_scenario(w: &Workload, seed: u64, t: &Tier, workdir: &Path) -> Value 
                             scheduler: kind.label(),
                             scheduler_seed: sseed,
                             yield_every: kind.yield_every(),
-                            // shuttle's own file is authoritative; the recorder is the fallback
                             schedule: persisted.clone().unwrap_or(recorded.clone()),
-                            schedule_steps: sched.len(),
+                            schedule_steps: s.len(),
                             schedule_file: kept,
                             persisted_matches_recorder: persisted.as_ref().map(|p| p.trim() == recorded.trim()),
                             log: log.as_ref().map(|l| l.0.clone()).unwrap_or(Value::Null),
@@ -378,9 +300,11 @@ fn explore_scenario(w: &Workload, seed: u64, t: &Tier, workdir: &Path) -> Value 
             }
         }
     }
-    let (executions, steps, distinct, distinct_nt) = REC.with(|r| {
+    let (executions, steps, distinct, distinct_nt, hashes) = REC.with(|r| {
         let r = r.borrow();
-        (r.executions_started, r.steps, r.distinct.len(), r.distinct_nontrivial.len())
+        // order-independent digest of the set of schedules seen (determinism check across runs)
+        let digest = r.distinct.iter().fold(0u64, |a, h| a ^ h.wrapping_mul(0x9E37_79B9_7F4A_7C15).rotate_left((h & 31) as u32));
+        (r.executions_started, r.steps, r.distinct.len(), r.distinct_nontrivial.len(), digest)
     });
     let stats = exec::STATS.with(|s| s.borrow().clone());
     json!({
@@ -391,11 +315,11 @@ fn explore_scenario(w: &Workload, seed: u64, t: &Tier, workdir: &Path) -> Value 
         "steps": steps,
         "distinct_schedules": distinct,
         "distinct_nontrivial_schedules": distinct_nt,
+        "schedule_set_digest": format!("{hashes:016x}"),
         "by_scheduler": per_sched,
         "budget_skipped": skipped,
-        "samples_accepted": stats.samples_accepted,
-        "samples_received": stats.samples_received,
-        "samples_lost_to_overflow": stats.samples_lost_to_overflow,
+        "messages_submitted": stats.messages_submitted,
+        "chunks_queued": stats.chunks_queued,
         "probes": stats.probes,
         "failure_counts": failure_counts,
         "failures": failures.iter().map(|f| json!({
@@ -410,7 +334,7 @@ fn explore_scenario(w: &Workload, seed: u64, t: &Tier, workdir: &Path) -> Value 
 }
 
 // =============================================================================================
-// worker process: --worker <tier> <seed> <workdir> <id,id,...>
+// worker process: c12 --worker <tier> <seed> <workdir> <id,id,...>
 // =============================================================================================
 fn worker(a: &[String]) -> i32 {
     let (Some(t), Some(seed), Some(dir), Some(ids)) = (a.first().and_then(|t| tier(t)), a.get(1).and_then(|s| s.parse::<u64>().ok()), a.get(2), a.get(3)) else {
@@ -421,10 +345,15 @@ fn worker(a: &[String]) -> i32 {
         eprintln!("cannot create {dir:?}");
         return 2;
     }
+    let cert = match make_certificate() {
+        Ok(c) => c,
+        Err(e) => {
+            eprintln!("{e}");
+            return 2;
+        }
+    };
     install_process_hooks();
     spawn_watchdog(|ctx, failure| {
-        // the exploring thread is stuck for good: report what is known and let the parent
-        // restart a worker for the scenarios that are left
         let line = json!({ "hang": ctx.scenario, "executions": EXECUTIONS_IN_SCENARIO.load(std::sync::atomic::Ordering::Relaxed) + 1, "failure": failure });
         let mut o = std::io::stdout().lock();
         let _ = writeln!(o, "{line}");
@@ -434,13 +363,17 @@ fn worker(a: &[String]) -> i32 {
     for id in ids.split(',').filter(|s| !s.is_empty()) {
         let Ok(id) = id.parse::<u32>() else { return 2 };
         let w = generate(seed, id);
+        if let Err(e) = w.validate() {
+            eprintln!("scenario {id}: {e}");
+            return 2;
+        }
         EXECUTIONS_IN_SCENARIO.store(0, std::sync::atomic::Ordering::Relaxed);
         {
             let mut o = out.lock();
             let _ = writeln!(o, "{}", json!({ "begin": id }));
             let _ = o.flush();
         }
-        let r = explore_scenario(&w, seed, &t, &dir);
+        let r = explore_scenario(Arc::new(Prepared::new(w, cert.clone())), seed, &t, &dir);
         let mut o = out.lock();
         let _ = writeln!(o, "{r}");
         let _ = o.flush();
@@ -448,12 +381,8 @@ fn worker(a: &[String]) -> i32 {
     0
 }
 
-// =============================================================================================
-// parent: fan out, merge, triage, evidence
-// =============================================================================================
 struct WorkerOutcome {
     results: Vec<Value>,
-    /// scenario that was running when the process died, and how it died
     crashed: Option<(u32, String)>,
     unfinished: Vec<u32>,
 }
@@ -462,6 +391,7 @@ fn run_worker(exe: &Path, t: &Tier, seed: u64, dir: &Path, ids: &[u32]) -> Resul
     std::fs::create_dir_all(dir).map_err(|e| format!("{dir:?}: {e}"))?;
     let errlog = std::fs::OpenOptions::new().create(true).append(true).open(dir.join("stderr.log")).map_err(|e| e.to_string())?;
     let mut child = Command::new(exe)
+        .arg("c12")
         .arg("--worker")
         .arg(t.name)
         .arg(seed.to_string())
@@ -481,14 +411,13 @@ fn run_worker(exe: &Path, t: &Tier, seed: u64, dir: &Path, ids: &[u32]) -> Resul
         if let Some(b) = v.get("begin").and_then(|b| b.as_u64()) {
             begun = Some(b as u32);
         } else if let Some(h) = v.get("hang").and_then(|b| b.as_u64()) {
-            // partial result of a scenario whose exploration ended in a hung execution
             done.insert(h as u32);
             begun = None;
             hung = true;
             results.push(json!({
                 "scenario": h, "executions": v["executions"], "executions_completed": v["executions"].as_u64().unwrap_or(1) - 1,
                 "distinct_schedules": 0, "distinct_nontrivial_schedules": 0, "steps": 0, "budget_skipped": 0, "partial": true,
-                "failure_counts": { "C20.ub|hang": 1 }, "failures": [v["failure"].clone()],
+                "failure_counts": { "C12.progress|hang": 1 }, "failures": [v["failure"].clone()],
             }));
         } else {
             if let Some(s) = v.get("scenario").and_then(|s| s.as_u64()) {
@@ -518,8 +447,6 @@ fn run_worker(exe: &Path, t: &Tier, seed: u64, dir: &Path, ids: &[u32]) -> Resul
             }
         };
         match begun {
-            // only death by signal (SIGSEGV, SIGBUS, SIGABRT ...) is evidence about the code
-            // under test; a plain non-zero exit is the harness failing
             Some(b) if how.starts_with("signal") => crashed = Some((b, how)),
             Some(b) => return Err(format!("worker failed in scenario {b} ({how}); see {dir:?}/stderr.log")),
             None => return Err(format!("worker failed outside any scenario ({how}); see {dir:?}/stderr.log")),
@@ -529,10 +456,51 @@ fn run_worker(exe: &Path, t: &Tier, seed: u64, dir: &Path, ids: &[u32]) -> Resul
     Ok(WorkerOutcome { results, crashed, unfinished })
 }
 
-fn slug(s: &str) -> String {
-    s.chars().map(|c| if c.is_ascii_alphanumeric() { c } else { '-' }).collect()
+// =============================================================================================
+// known findings: <root>/known_findings.json entries with property "C12" and, in `pattern`,
+// "engine": "threads" (so that patterns written for the network simulation never match here).
+// Other pattern fields, all optional: "kind" (string or list), "scenario_class" (string).
+// Entry field `oracle` is the exact oracle id ("C12.boundary") or "C12.*". Only status "open".
+// =============================================================================================
+struct Known {
+    id: String,
+    oracle: String,
+    what: String,
+    pattern: Value,
+}
+fn load_known(root: &str) -> Result<Vec<Known>, String> {
+    let p = format!("{root}/known_findings.json");
+    let Ok(s) = std::fs::read_to_string(&p) else { return Ok(vec![]) };
+    let v: Value = serde_json::from_str(&s).map_err(|e| format!("{p} does not parse: {e}"))?;
+    let arr = v.as_array().ok_or_else(|| format!("{p}: top level is not an array"))?;
+    Ok(arr
+        .iter()
+        .filter(|e| e["property"] == json!(PROP) && e["status"] == json!("open") && e["pattern"]["engine"] == json!("threads"))
+        .map(|e| Known { id: e["id"].as_str().unwrap_or("?").into(), oracle: e["oracle"].as_str().unwrap_or("").into(), what: e["what"].as_str().unwrap_or("").into(), pattern: e["pattern"].clone() })
+        .collect())
+}
+impl Known {
+    fn matches(&self, oracle: &str, kind: &str, w: &Workload) -> bool {
+        if !(self.oracle == oracle || self.oracle == "C12.*") {
+            return false;
+        }
+        let Some(p) = self.pattern.as_object() else { return false };
+        p.iter().all(|(k, v)| match k.as_str() {
+            "engine" => v == &json!("threads"),
+            "kind" => match v {
+                Value::String(s) => s == kind,
+                Value::Array(a) => a.iter().any(|x| x.as_str() == Some(kind)),
+                _ => false,
+            },
+            "scenario_class" => v.as_str() == Some(w.scenario_class()),
+            _ => false, // unknown constraint: refuse rather than waive
+        })
+    }
 }
 
+// =============================================================================================
+// parent: fan out, merge, triage, evidence
+// =============================================================================================
 fn check(t: Tier) -> i32 {
     let t0 = std::time::Instant::now();
     let seed = match seed_from_env() {
@@ -543,7 +511,7 @@ fn check(t: Tier) -> i32 {
         }
     };
     let root = root();
-    let known = match known::load(&root) {
+    let known = match load_known(&root) {
         Ok(k) => k,
         Err(e) => {
             println!("HARNESS ERROR: {e}");
@@ -551,7 +519,7 @@ fn check(t: Tier) -> i32 {
         }
     };
     let replays_dir = PathBuf::from(format!("{root}/replays"));
-    let work = replays_dir.join(format!(".c20-work-{}", std::process::id()));
+    let work = replays_dir.join(format!(".c12t-work-{}", std::process::id()));
     if let Err(e) = std::fs::create_dir_all(&work) {
         println!("HARNESS ERROR: cannot create {work:?}: {e}");
         return 2;
@@ -564,21 +532,29 @@ fn check(t: Tier) -> i32 {
         }
     };
     let workloads = scenarios_of(seed, &t);
+    for w in &workloads {
+        if let Err(e) = w.validate() {
+            println!("HARNESS ERROR: scenario {}: {e}", w.id);
+            return 2;
+        }
+    }
     let by_id: BTreeMap<u32, Workload> = workloads.iter().map(|w| (w.id, w.clone())).collect();
     let nworkers = std::env::var("C20_WORKERS").ok().and_then(|v| v.parse::<usize>().ok()).unwrap_or_else(|| std::thread::available_parallelism().map(|n| n.get()).unwrap_or(4).min(12)).max(1);
-    // heavier workloads first within a round-robin deal, so workers end at about the same time
     let mut order: Vec<&Workload> = workloads.iter().collect();
-    order.sort_by_key(|w| std::cmp::Reverse((w.total_pushes() as usize + 2) * (w.producers.len() + 2)));
-    let mut deals: Vec<Vec<u32>> = vec![vec![]; nworkers];
-    for (k, w) in order.iter().enumerate() {
-        deals[k % nworkers].push(w.id);
+    order.sort_by_key(|w| std::cmp::Reverse((w.weight(), w.id)));
+    // greedy deal onto the least loaded worker (execution cost differs a lot between workloads)
+    let mut deals: Vec<(usize, Vec<u32>)> = vec![(0, vec![]); nworkers];
+    for w in &order {
+        let k = (0..nworkers).min_by_key(|k| (deals[*k].0, *k)).unwrap();
+        deals[k].0 += w.weight();
+        deals[k].1.push(w.id);
     }
     let tref = &t;
     let outcomes: Vec<Result<(Vec<Value>, Vec<(u32, String)>), String>> = std::thread::scope(|s| {
         let hs: Vec<_> = deals
             .iter()
             .enumerate()
-            .map(|(k, ids)| {
+            .map(|(k, (_, ids))| {
                 let (exe, work) = (exe.clone(), work.clone());
                 s.spawn(move || {
                     let mut todo = ids.clone();
@@ -600,7 +576,6 @@ fn check(t: Tier) -> i32 {
             .collect();
         hs.into_iter().map(|h| h.join().unwrap_or_else(|_| Err("worker supervisor thread panicked".into()))).collect()
     });
-
     let mut results: Vec<Value> = vec![];
     let mut crashes: Vec<(u32, String)> = vec![];
     for o in outcomes {
@@ -623,6 +598,7 @@ fn check(t: Tier) -> i32 {
     let mut by_sched: BTreeMap<String, u64> = BTreeMap::new();
     let mut by_family: BTreeMap<String, u64> = BTreeMap::new();
     let mut per_scenario = vec![];
+    let mut digest_all = 0u64;
     for r in &results {
         for (k, v) in r["probes"].as_object().into_iter().flatten() {
             *probes.entry(format!("probe.{k}")).or_insert(0) += v.as_u64().unwrap_or(0);
@@ -631,14 +607,16 @@ fn check(t: Tier) -> i32 {
             *by_sched.entry(k.clone()).or_insert(0) += v.as_u64().unwrap_or(0);
         }
         let id = r["scenario"].as_u64().unwrap_or(0) as u32;
+        digest_all ^= mix(id as u64, 0xD16E, u64::from_str_radix(r["schedule_set_digest"].as_str().unwrap_or("0"), 16).unwrap_or(0));
         if let Some(w) = by_id.get(&id) {
             *by_family.entry(w.family.to_string()).or_insert(0) += r["executions"].as_u64().unwrap_or(0);
             per_scenario.push(json!({
-                "scenario": id, "family": w.family, "class": w.scenario_class(), "capacity": w.capacity,
-                "producers": w.producers.len(), "pushes": w.total_pushes(), "stop": w.has_stop(),
+                "scenario": id, "family": w.family, "class": w.scenario_class(), "threads": w.senders.len(), "channels": w.channels.len(),
+                "messages": w.total_messages(), "multi_fragment_messages": w.multi_fragment_messages(), "bytes": w.total_bytes(),
                 "executions": r["executions"], "distinct_schedules": r["distinct_schedules"],
-                "distinct_nontrivial_schedules": r["distinct_nontrivial_schedules"],
-                "failure_counts": r["failure_counts"], "budget_skipped": r["budget_skipped"],
+                "distinct_nontrivial_schedules": r["distinct_nontrivial_schedules"], "schedule_set_digest": r["schedule_set_digest"],
+                "interleaved_inside_multi_fragment_send": r["probes"]["queue_lock_acquisitions_interleaved_while_inside_multi_fragment_send"],
+                "failure_counts": r["failure_counts"], "budget_skipped": r["budget_skipped"], "wall_ms": r["wall_ms"],
             }));
         }
     }
@@ -658,40 +636,10 @@ fn check(t: Tier) -> i32 {
     for (id, how) in &crashes {
         cands.push(Cand {
             w: by_id[id].clone(),
-            f: json!({ "oracle": "C20.ub", "kind": "process_crash", "detail": format!("the exploring process died ({how}) while running this scenario: memory error in the code under test"),
+            f: json!({ "oracle": "C12.progress", "kind": "process_crash", "detail": format!("the exploring process died ({how}) while running this scenario"),
                         "scheduler": "exploration", "scheduler_seed": 0, "yield_every": 0, "schedule": "", "schedule_steps": 0, "schedule_file": Value::Null, "log": Value::Null, "log_hash": "0" }),
         });
     }
-    // ---- second engine ---------------------------------------------------------------------
-    let miri_seeds = std::env::var("C20_MIRI_SEEDS").ok().and_then(|v| v.parse::<u64>().ok()).unwrap_or(t.miri_seeds);
-    let miri_first = seed % 1_000_000;
-    let miri_outcome = if miri_seeds > 0 { Some(miri::run_all(miri_first, miri_seeds)) } else { None };
-    let mut miri_runs = 0u64;
-    if let Some(m) = &miri_outcome {
-        if !m.usable {
-            println!("NOTE: the Miri engine is unusable here ({}); the memory-error clause rests on the shuttle oracles alone in this run", m.note);
-        }
-        for mode in &m.modes {
-            miri_runs += mode.seeds.1 - mode.seeds.0;
-            // a stand-in workload so that known-findings patterns (scenario_class ...) apply
-            let w = Workload {
-                id: if mode.mode == "sp" { 1_000_001 } else { 1_000_002 },
-                family: if mode.mode == "sp" { "miri_sp" } else { "miri_mp" },
-                capacity: 2,
-                mode: workload::SourceMode::Cloned,
-                producers: if mode.mode == "sp" { vec![vec![workload::Op::Send, workload::Op::TrySend, workload::Op::SendMany(2)]] } else { vec![vec![workload::Op::Send, workload::Op::TrySend]; 2] },
-                controller: vec![],
-            };
-            for (mseed, oracle, kind, detail) in &mode.failing {
-                cands.push(Cand {
-                    w: w.clone(),
-                    f: json!({ "oracle": oracle, "kind": kind, "detail": format!("[miri {} seed {mseed}] {detail}", mode.mode), "engine": "miri", "miri_mode": mode.mode, "miri_seed": mseed,
-                               "scheduler": "miri", "scheduler_seed": mseed, "yield_every": 0, "schedule": "", "schedule_steps": 0, "schedule_file": Value::Null, "log": Value::Null, "log_hash": "0" }),
-                });
-            }
-        }
-    }
-    // group by (scenario class, oracle, kind); in each group keep the two smallest cases
     let mut groups: BTreeMap<(String, String, String), Vec<Cand>> = BTreeMap::new();
     for c in cands {
         let key = (c.w.scenario_class().to_string(), c.f["oracle"].as_str().unwrap_or("?").to_string(), c.f["kind"].as_str().unwrap_or("?").to_string());
@@ -706,18 +654,14 @@ fn check(t: Tier) -> i32 {
     let mut replay_unconfirmed = 0;
     let failing_scenarios_total: BTreeSet<u32> = groups.values().flatten().map(|c| c.w.id).collect();
     for ((class, oracle, kind), mut cs) in groups {
-        cs.sort_by_key(|c| (c.w.producers.len(), c.w.total_pushes(), c.f["schedule_steps"].as_u64().unwrap_or(0), c.w.id));
+        // smallest case first: fewest threads, fewest messages, shortest schedule
+        cs.sort_by_key(|c| (c.w.senders.len(), c.w.total_messages(), c.f["schedule_steps"].as_u64().unwrap_or(0), c.w.id));
         let n_scen = cs.iter().map(|c| c.w.id).collect::<BTreeSet<_>>().len();
         let matched = known.iter().find(|k| cs.iter().all(|c| k.matches(&oracle, &kind, &c.w)));
         let keep = if matched.is_some() { 1 } else { 2 };
         let mut paths = vec![];
         for c in cs.iter().take(keep) {
-            let is_miri = c.f["engine"] == json!("miri");
-            let base = if is_miri {
-                format!("{PROP}-{}-{}-{}-miri-{}-{}", slug(oracle.trim_start_matches("C20.")), slug(&kind), seed, c.f["miri_mode"].as_str().unwrap_or("?"), c.f["miri_seed"])
-            } else {
-                format!("{PROP}-{}-{}-{}-s{}", slug(oracle.trim_start_matches("C20.")), slug(&kind), seed, c.w.id)
-            };
+            let base = format!("{STEM}-{}-{}-{}-s{}", slug(oracle.trim_start_matches("C12.")), slug(&kind), seed, c.w.id);
             let sched_name = format!("{base}.schedule.txt");
             let json_path = replays_dir.join(format!("{base}.json"));
             let sched_text = c.f["schedule"].as_str().unwrap_or("").to_string();
@@ -729,17 +673,14 @@ fn check(t: Tier) -> i32 {
                 let _ = std::fs::write(replays_dir.join(&sched_name), &sched_text);
             }
             let desc = json!({
-                "property": PROP, "oracle": oracle, "kind": kind, "scenario_class": class, "detail": c.f["detail"],
+                "property": PROP, "family": "sctp_send", "oracle": oracle, "kind": kind, "scenario_class": class, "detail": c.f["detail"],
                 "seed": seed, "workload": c.w.to_json(),
                 "scheduler": c.f["scheduler"], "scheduler_seed": c.f["scheduler_seed"], "yield_every": c.f["yield_every"],
                 "schedule_file": if sched_text.is_empty() { Value::Null } else { json!(sched_name) },
                 "schedule_file_written_by": if adopted { "shuttle FailurePersistence::File" } else { "harness recorder (same text format)" },
                 "schedule": sched_text, "schedule_steps": c.f["schedule_steps"],
-                "log_hash": c.f["log_hash"], "log": c.f["log"], "tier": t.name,
-                "engine": if is_miri { "miri" } else { "shuttle" },
-                "miri": if is_miri { json!({ "mode": c.f["miri_mode"], "seed": c.f["miri_seed"], "flags": miri::flags_for_seed(c.f["miri_seed"].as_u64().unwrap_or(0)),
-                                              "by_hand": format!("cd c20/miri && RUSTFLAGS='--cfg c20_miri' MIRIFLAGS='{}' cargo +nightly miri run --offline -- {}", miri::flags_for_seed(c.f["miri_seed"].as_u64().unwrap_or(0)), c.f["miri_mode"].as_str().unwrap_or("sp")) }) } else { Value::Null },
-                "how_to_replay": "c20/check.sh --replay <this file>",
+                "log_hash": c.f["log_hash"], "log": c.f["log"], "tier": t.name, "engine": "shuttle",
+                "how_to_replay": "c20/check.sh c12 --replay <this file>   (c20/check.sh --replay <this file> works too)",
             });
             if let Err(e) = std::fs::write(&json_path, serde_json::to_string_pretty(&desc).unwrap()) {
                 println!("HARNESS ERROR: cannot write {json_path:?}: {e}");
@@ -747,7 +688,18 @@ fn check(t: Tier) -> i32 {
             }
             let p = json_path.to_string_lossy().into_owned();
             // the replay must reproduce in a fresh process before it is reported
-            let confirmed = Command::new(&exe).arg("--replay").arg(&p).stdout(Stdio::piped()).stderr(Stdio::null()).output().map(|o| { let t = String::from_utf8_lossy(&o.stdout).into_owned(); t.contains("REPRODUCED oracle=") || t.contains("REPRODUCED-AS-CRASH") || (kind == "process_crash" && t.contains("REPRODUCED-WITH-DIFFERENT-TRACE")) }).unwrap_or(false);
+            let confirmed = Command::new(&exe)
+                .arg("c12")
+                .arg("--replay")
+                .arg(&p)
+                .stdout(Stdio::piped())
+                .stderr(Stdio::null())
+                .output()
+                .map(|o| {
+                    let t = String::from_utf8_lossy(&o.stdout).into_owned();
+                    t.contains("REPRODUCED oracle=") || t.contains("REPRODUCED-AS-CRASH") || (kind == "process_crash" && t.contains("REPRODUCED-WITH-DIFFERENT-TRACE"))
+                })
+                .unwrap_or(false);
             if !confirmed {
                 replay_unconfirmed += 1;
             }
@@ -795,19 +747,32 @@ fn check(t: Tier) -> i32 {
         println!("HARNESS ERROR: {replay_unconfirmed} replay file(s) did not reproduce in a fresh process");
         exit = 2;
     }
-    let mut samples: Vec<Value> = workloads.iter().filter(|w| [1u32, 3, 5, 9, 13].contains(&w.id)).map(|w| w.to_json()).collect();
+    let window = probes.get("probe.queue_lock_acquisitions_interleaved_while_inside_multi_fragment_send").copied().unwrap_or(0);
+    if window == 0 && exit == 0 {
+        println!("HARNESS ERROR: no execution interleaved two threads' queue-lock acquisitions inside a multi-fragment send: the scenario does not reach the window it exists for");
+        exit = 2;
+    }
+    let mut samples: Vec<Value> = workloads.iter().filter(|w| [0u32, 1, 5, 6, 8, 10, 15].contains(&w.id)).map(|w| w.to_json()).collect();
     samples.extend(viol_samples);
     let ev = json!({
         "property_id": PROP,
+        "part": "thread interleavings of concurrent send_data calls (scenario family sctp_send); the network-history part of C12 is decided by the simulation and reported in evidence/C12.json",
         "tier": t.name,
         "seed": seed,
         "level": "exploration",
         "coverage": {
             "evaluations": evaluations,
             "distinct_nontrivial": distinct_nt,
-            "rule": "one evaluation = one shuttle execution (one complete thread interleaving, decided at every atomic / lock operation of spsc.rs and track.rs, before and after it) of one workload. A workload = (queue capacity 1..64, shared-Arc or cloned source handles, 1..4 producer threads each with a list of send / try_send / send_many(0..3) / stop / clone+drop operations followed by dropping its handle, optional bystander thread calling stop(), one consumer thread looping on track.recv() under shuttle::future::block_on); it is a pure function of (VERIF_SEED, scenario id), 16 families guarantee capacity 1 and 2, producers pushing 0 / 1 / several samples, stop and 1..4 producers in every batch; ids that expand to an already-seen workload are left out. Schedules come from shuttle's RandomScheduler and PctScheduler (depth 2..5), seeded from (VERIF_SEED, scenario id, chunk). distinct = the sequence of task ids the scheduler chose (hashed, per scenario) was not seen before in that scenario; non-trivial = the execution ran to its end and the consumer received a sample while a producer handle was still alive, or parked before the close, or drained a sample after the close, or a push met a full ring (drop / WouldBlock), or stop() fell inside a send. Executions ending in a violation are counted in evaluations and distinct_schedules but never in distinct_nontrivial.",
+            "rule": "one evaluation = one shuttle execution (one complete interleaving of 2..8 OS-thread senders, decided at every acquisition of the association-wide outbound-queue lock in SctpInner::send_data_raw, at thread start / end, and wherever a sender parks on its channel's send lock) of one workload, followed by the oracles on SctpTransport::verif_outbound_snapshot(). A workload = (1..8 negotiated data channels of one association — ordered / unordered, reliable / max-retransmits / max-lifetime, default or small max_payload_size —, 2..8 sender threads each with a list of 1..4 (channel, length) messages submitted with SctpTransport::send_data under shuttle::future::block_on; lengths from {0, 1, 1172, 1173, 2344, 2345, 5000, 20000}, the same corners relative to the channel's fragment size, and seeded random values, unique per channel so every fragment run in the queue is attributable; sctp_max_buffered_amount 0 or the default with the total below it); it is a pure function of (VERIF_SEED, scenario id), 16 structural families (see executions_by_family); ids that expand to an already-seen workload are left out. The association's run loop is never polled, so the queue keeps everything. Schedules come from shuttle's RandomScheduler and PctScheduler (depth 2..5), seeded from (VERIF_SEED, scenario id, chunk). distinct = the sequence of task ids the scheduler chose (hashed, per scenario) was not seen before in that scenario; non-trivial = the execution ran to its end and at least once another thread took the queue lock while a sender stood at its own queue-lock point, or a sender parked on a send lock. Executions ending in a violation are counted in evaluations and distinct_schedules but never in distinct_nontrivial.",
+            "oracles": {
+                "C12.boundary": "the queue is a concatenation of whole messages: every run starts with a B chunk, ends with an E chunk, all its chunks carry one stream id, SSN and U flag, no chunk of another message sits between B and E, and its payload lengths add up to one submitted message of that channel; every submitted message is exactly one run (kinds: interleaved_fragments, begin_inside_message, fragment_without_begin, fragment_of_other_message, message_without_end, no_such_message, duplicate_message, message_missing)",
+                "C12.mode": "the U flag of every message equals the channel's ordered / unordered setting",
+                "C12.order": "ordered channels: SSNs are exactly 0..n (ssn_gap_or_repeat); per sender thread SSNs and queue positions increase in submission order (ssn_against_submission_order, queued_against_submission_order); queue order equals SSN order (ssn_against_queue_order — the invariant the channel's send_lock exists for; FORWARD-TSN handling at the receiver relies on it)",
+                "C12.progress": "every send_data returns Ok; no sender parks for ever (shuttle deadlock), no execution exceeds the step bound, burns CPU without a scheduling decision (hang) or panics",
+            },
             "samples": samples,
             "distinct_schedules": distinct,
+            "schedule_set_digest": format!("{digest_all:016x}"),
             "scenarios": results.len(),
             "scenarios_by_class": per_scenario.iter().fold(BTreeMap::<String, u64>::new(), |mut m, s| { *m.entry(s["class"].as_str().unwrap_or("?").to_string()).or_insert(0) += 1; m }),
             "scenarios_with_a_violation": failing_scenarios_total.len(),
@@ -817,9 +782,8 @@ fn check(t: Tier) -> i32 {
             "executions_by_scheduler": by_sched,
             "executions_by_family": by_family,
             "budget_skipped_after_repeated_failures": sum("budget_skipped"),
-            "samples_accepted": sum("samples_accepted"),
-            "samples_received": sum("samples_received"),
-            "samples_lost_to_overflow": sum("samples_lost_to_overflow"),
+            "messages_submitted": sum("messages_submitted"),
+            "chunks_queued": sum("chunks_queued"),
             "probes": probes,
             "per_scenario": if per_scenario.len() <= 300 { json!(per_scenario) } else { json!(format!("{} scenarios; listed per scenario only when there are at most 300 (see executions_by_family)", per_scenario.len())) },
             "known_findings_reported": lines_known,
@@ -827,14 +791,13 @@ fn check(t: Tier) -> i32 {
             "worker_processes": nworkers,
             "worker_crashes": crashes.iter().map(|c| json!({"scenario": c.0, "how": c.1})).collect::<Vec<_>>(),
             "executions_per_second": if wall > 0.0 { (evaluations as f64 / wall) as u64 } else { 0 },
-            "engines": { "shuttle": "0.9.3 (RandomScheduler, PctScheduler; replay by ReplayScheduler)", "miri": match &miri_outcome { Some(m) => m.to_json(), None => json!("not part of this tier (thorough runs it; C20_MIRI_SEEDS=n forces n seeds per mode)") } },
-            "miri_runs": miri_runs,
+            "engines": { "shuttle": "0.9.3 (RandomScheduler, PctScheduler; replay by ReplayScheduler)" },
         },
         "assumptions": [
-            "interleavings are explored at the granularity of the wrapped operations (every atomic load/store/RMW and every pop-lock acquisition in spsc.rs and track.rs, before and after); the code between two such points runs atomically, which is exact for sequentially consistent executions — weak-memory reorderings are outside shuttle and are left to the Miri engine",
-            "tokio::sync::Notify and the std atomic `active_senders` are not wrapped: each of their calls is one atomic step here",
-            "the hook Mutex::lock spins on try_lock with a scheduling point per turn; under PCT every 8th scheduling point is a yield so a spinning high-priority thread cannot starve the lock holder",
-            "samples carry no heap data (static payload bytes), so a slot delivered twice is observed as a duplicate without undefined behaviour in the harness; a workload that still crashes the exploring process is reported as C20.ub",
+            "interleavings are explored at the granularity of the outbound-queue lock: the hook mutex calls the scheduling point before every attempt to take it; everything between two such points (SSN fetch_add, flag computation, chunk construction, pushes under the lock) runs atomically. The other locks of sctp.rs (state, data_channels, parking_lot mutexes) and its std atomics are not scheduling points; tokio's async Mutex (send_lock) is: a sender that finds it taken returns Pending and shuttle parks the thread until the holder's unlock wakes it",
+            "the association never leaves state New and its run loop is never polled: nothing is transmitted, acknowledged or removed from the queue, flight_size stays 0; interleavings of senders with transmit() popping from the queue are therefore not covered here (transmit pops whole chunks from the front under the same lock)",
+            "messages are attributed to runs by (channel, length) — the snapshot accessor exposes no payload bytes; byte equality of what the peer receives is the simulation's part of C12",
+            "under PCT every 8th scheduling point is a yield (as in the C20 family)",
             "a clean batch is evidence over the sampled schedules and workloads, not a proof",
         ],
         "wall_s": wall,
@@ -842,13 +805,13 @@ fn check(t: Tier) -> i32 {
     });
     let evdir = format!("{root}/evidence");
     let _ = std::fs::create_dir_all(&evdir);
-    let evpath = format!("{evdir}/{PROP}.json");
+    let evpath = format!("{evdir}/{STEM}.json");
     if let Err(e) = std::fs::write(&evpath, serde_json::to_string_pretty(&ev).unwrap()) {
         println!("HARNESS ERROR: cannot write {evpath}: {e}");
         return 2;
     }
     println!(
-        "{PROP}: {} scenarios, {evaluations} schedules ({distinct} distinct, {distinct_nt} distinct non-trivial), {} scenario(s) with a violation, {:.1} s wall, {new_violations} new violation group(s), exit {exit}",
+        "{PROP} (threads/sctp_send): {} scenarios, {evaluations} schedules ({distinct} distinct, {distinct_nt} distinct non-trivial; set digest {digest_all:016x}), {window} with interleaved queue-lock acquisitions inside a multi-fragment send, {} scenario(s) with a violation, {:.1} s wall, {new_violations} new violation group(s), exit {exit}",
         results.len(),
         failing_scenarios_total.len(),
         wall
@@ -859,10 +822,7 @@ fn check(t: Tier) -> i32 {
 // =============================================================================================
 // replay
 // =============================================================================================
-/// The schedule is re-run in a child process: with corrupted ring indices the code under test
-/// can read slots that were never written, and what that does depends on what the allocator
-/// hands out — in the exploring process (recycled, well-formed memory) it shows as a duplicate,
-/// a stale sample or an endless destructor, in a fresh process it can kill the process.
+/// re-run in a child process so that a replay that kills the process is still reported
 fn replay_outer(path: &str, log: bool) -> i32 {
     let exe = match std::env::current_exe() {
         Ok(e) => e,
@@ -872,7 +832,7 @@ fn replay_outer(path: &str, log: bool) -> i32 {
         }
     };
     let mut c = Command::new(exe);
-    c.arg("--replay-inner").arg(path);
+    c.arg("c12").arg("--replay-inner").arg(path);
     if log {
         c.arg("--log");
     }
@@ -887,16 +847,86 @@ fn replay_outer(path: &str, log: bool) -> i32 {
     {
         use std::os::unix::process::ExitStatusExt;
         if let Some(sig) = st.signal() {
-            let recorded = std::fs::read_to_string(path).ok().and_then(|t| serde_json::from_str::<Value>(&t).ok()).map(|d| format!("{} {}", d["oracle"].as_str().unwrap_or("?"), d["kind"].as_str().unwrap_or("?"))).unwrap_or_default();
-            println!("REPRODUCED-AS-CRASH oracle=C20.ub kind=process_crash detail=replaying the recorded schedule kills the process with signal {sig}: memory error in the code under test (the exploring process saw: {recorded})");
+            println!("REPRODUCED-AS-CRASH oracle=C12.progress kind=process_crash detail=replaying the recorded schedule kills the process with signal {sig}");
             println!("VIOLATION property={PROP} replay={path}");
             return 1;
         }
     }
+    if st.code() == Some(EXIT_DIVERGED) {
+        return reexplore_after_divergence(path);
+    }
     st.code().unwrap_or(2)
 }
 
-fn replay(path: &str) -> i32 {
+/// The schedule of a replay file only fits the build that wrote it (same scheduling points).
+/// When it cannot be followed, the question the file stands for — does this workload still
+/// violate its oracle under some schedule — is answered by exploring the recorded workload
+/// afresh with the quick tier's budget (deterministic: seeded from the file's seed).
+fn reexplore_after_divergence(path: &str) -> i32 {
+    let d: Value = std::fs::read_to_string(path).ok().and_then(|t| serde_json::from_str(&t).ok()).unwrap_or(Value::Null);
+    let (want_oracle, want_kind) = (d["oracle"].as_str().unwrap_or("").to_string(), d["kind"].as_str().unwrap_or("").to_string());
+    let out = match std::env::current_exe().map_err(|e| e.to_string()).and_then(|exe| Command::new(exe).arg("c12").arg("--explore-file").arg(path).stderr(Stdio::null()).output().map_err(|e| e.to_string())) {
+        Ok(o) => o,
+        Err(e) => {
+            eprintln!("cannot re-explore: {e}");
+            return 2;
+        }
+    };
+    let text = String::from_utf8_lossy(&out.stdout).into_owned();
+    let Some(r) = text.lines().filter_map(|l| serde_json::from_str::<Value>(l).ok()).find(|v| v.get("scenario").is_some() || v.get("hang").is_some()) else {
+        eprintln!("re-exploration produced no result (exit {:?})", out.status.code());
+        return 2;
+    };
+    let fails: Vec<(String, String, String)> = match r.get("hang") {
+        Some(_) => vec![("C12.progress".into(), "hang".into(), r["failure"]["detail"].as_str().unwrap_or("").to_string())],
+        None => r["failures"].as_array().into_iter().flatten().map(|f| (f["oracle"].as_str().unwrap_or("?").to_string(), f["kind"].as_str().unwrap_or("?").to_string(), f["detail"].as_str().unwrap_or("").to_string())).collect(),
+    };
+    let n = r["executions"].as_u64().unwrap_or(0);
+    if let Some((o, k, detail)) = fails.iter().find(|f| f.0 == want_oracle).or(fails.first()) {
+        if *o == want_oracle {
+            println!("REPRODUCED-WITH-DIFFERENT-TRACE oracle={o} kind={k} detail=the recorded schedule does not fit this build, but re-exploring the recorded workload fails again: {detail}");
+        } else {
+            println!("DIFFERENT FAILURE: oracle={o} kind={k} detail={detail} (recorded: {want_oracle} {want_kind}; the recorded schedule does not fit this build, the recorded workload was explored afresh)");
+        }
+        println!("VIOLATION property={PROP} replay={path}");
+        return 1;
+    }
+    println!("NOT REPRODUCED: the recorded schedule does not fit this build (other scheduling points), and {n} fresh schedules of the recorded workload held every C12 oracle of this family (recorded: {want_oracle} {want_kind})");
+    0
+}
+
+/// internal: explore the workload recorded in a replay file with the quick budget, one JSON line on stdout
+fn explore_file(path: &str) -> i32 {
+    let d: Value = match std::fs::read_to_string(path).ok().and_then(|t| serde_json::from_str(&t).ok()) {
+        Some(v) => v,
+        None => return 2,
+    };
+    let Some(w) = Workload::from_json(&d["workload"]) else { return 2 };
+    if w.validate().is_err() {
+        return 2;
+    }
+    let Some(t) = tier("quick") else { return 2 };
+    let cert = match make_certificate() {
+        Ok(c) => c,
+        Err(_) => return 2,
+    };
+    let dir = std::env::temp_dir().join(format!("c12t-reexplore-{}", std::process::id()));
+    if std::fs::create_dir_all(&dir).is_err() {
+        return 2;
+    }
+    install_process_hooks();
+    let dir2 = dir.clone();
+    spawn_watchdog(move |ctx, failure| {
+        println!("{}", json!({ "hang": ctx.scenario, "executions": EXECUTIONS_IN_SCENARIO.load(std::sync::atomic::Ordering::Relaxed) + 1, "failure": failure }));
+        let _ = std::fs::remove_dir_all(&dir2);
+    });
+    let r = explore_scenario(Arc::new(Prepared::new(w, cert)), d["seed"].as_u64().unwrap_or(DEFAULT_SEED), &t, &dir);
+    let _ = std::fs::remove_dir_all(&dir);
+    println!("{r}");
+    0
+}
+
+fn replay(path: &str, show_log: bool) -> i32 {
     let txt = match std::fs::read_to_string(path) {
         Ok(t) => t,
         Err(e) => {
@@ -915,32 +945,14 @@ fn replay(path: &str) -> i32 {
         eprintln!("{path}: no usable workload");
         return 2;
     };
+    if let Err(e) = w.validate() {
+        eprintln!("{path}: {e}");
+        return 2;
+    }
     let want_oracle = d["oracle"].as_str().unwrap_or("").to_string();
     let want_kind = d["kind"].as_str().unwrap_or("").to_string();
     if want_kind == "process_crash" {
         return replay_crash(&d, &w);
-    }
-    if d["engine"] == json!("miri") {
-        let (mode, mseed) = (d["miri"]["mode"].as_str().unwrap_or("sp").to_string(), d["miri"]["seed"].as_u64().unwrap_or(0));
-        return match miri::replay(&mode, mseed) {
-            Err(e) => {
-                eprintln!("{e}");
-                2
-            }
-            Ok(None) => {
-                println!("NOT REPRODUCED: miri mode {mode} seed {mseed} ran clean (recorded: {want_oracle} {want_kind})");
-                0
-            }
-            Ok(Some((o, k, detail))) => {
-                if o == want_oracle && k == want_kind {
-                    println!("REPRODUCED oracle={o} kind={k} detail={detail}");
-                } else {
-                    println!("DIFFERENT FAILURE: oracle={o} kind={k} detail={detail} (recorded: {want_oracle} {want_kind})");
-                }
-                println!("VIOLATION property={PROP} replay={path}");
-                1
-            }
-        };
     }
     let dir = Path::new(path).parent().map(|p| p.to_path_buf()).unwrap_or_default();
     let sched_text = d["schedule_file"].as_str().and_then(|f| std::fs::read_to_string(dir.join(f)).ok()).or_else(|| d["schedule"].as_str().map(|s| s.to_string())).unwrap_or_default();
@@ -948,44 +960,57 @@ fn replay(path: &str) -> i32 {
         eprintln!("{path}: no schedule");
         return 2;
     }
+    let cert = match make_certificate() {
+        Ok(c) => c,
+        Err(e) => {
+            eprintln!("{e}");
+            return 2;
+        }
+    };
     install_process_hooks();
     exec::set_yield_every(d["yield_every"].as_u64().unwrap_or(0) as u32);
     {
         let (path, want_oracle, want_kind) = (path.to_string(), want_oracle.clone(), want_kind.clone());
         spawn_watchdog(move |_, f| {
             if want_kind == "hang" {
-                println!("REPRODUCED oracle=C20.ub kind=hang detail={}", f["detail"].as_str().unwrap_or(""));
+                println!("REPRODUCED oracle=C12.progress kind=hang detail={}", f["detail"].as_str().unwrap_or(""));
             } else {
-                println!("DIFFERENT FAILURE: oracle=C20.ub kind=hang (recorded: {want_oracle} {want_kind})");
+                println!("DIFFERENT FAILURE: oracle=C12.progress kind=hang (recorded: {want_oracle} {want_kind})");
             }
             println!("VIOLATION property={PROP} replay={path}");
             std::process::exit(1);
         });
     }
     set_hang_ctx(HangCtx { active: true, scenario: w.id, ..Default::default() });
-    let wl = Arc::new(w);
+    let p = Arc::new(Prepared::new(w, cert));
     let res = catch_unwind(AssertUnwindSafe(|| {
         let s = Recording(ReplayScheduler::new_from_encoded(sched_text.trim()));
-        Runner::new(s, shuttle_config(None)).run(move || exec::body(&wl))
+        Runner::new(s, shuttle_config(None)).run(move || exec::body(&p))
     }));
     set_hang_ctx(HangCtx::default());
     exec::leave_exec();
     let log = exec::current_log_summary();
     let hash = log.as_ref().map(|l| format!("{:016x}", l.1)).unwrap_or_default();
     println!("replay {path}: log_hash={hash} (recorded {})", d["log_hash"].as_str().unwrap_or("?"));
-    if std::env::args().any(|a| a == "--log") {
+    if show_log {
         if let Some((l, _)) = &log {
             println!("{}", serde_json::to_string_pretty(l).unwrap());
         }
     }
     match res {
         Ok(_) => {
-            println!("NOT REPRODUCED: the recorded schedule ran to its end and every C20 oracle held (recorded: {want_oracle} {want_kind})");
+            println!("NOT REPRODUCED: the recorded schedule ran to its end and every C12 oracle of this family held (recorded: {want_oracle} {want_kind})");
             0
         }
-        Err(p) => {
-            let msg = panic_text(&*p);
-            let (o, k, detail) = classify(&msg, &log);
+        Err(pl) => {
+            let msg = panic_text(&*pl);
+            if ["scheduled task is not runnable", "schedule ended early", "expected context switch but", "expected random choice but"].iter().any(|m| msg.contains(m)) {
+                // shuttle's ReplayScheduler could not follow the file: this build reaches other
+                // scheduling points than the one that wrote it (e.g. the defect was fixed)
+                println!("SCHEDULE-DOES-NOT-APPLY: {}", msg.lines().next().unwrap_or("").chars().take(160).collect::<String>());
+                return EXIT_DIVERGED;
+            }
+            let (o, k, detail) = classify(&msg);
             if o == want_oracle && k == want_kind && Some(hash.as_str()) == d["log_hash"].as_str() {
                 println!("REPRODUCED oracle={o} kind={k} detail={detail}");
             } else if o == want_oracle {
@@ -1004,26 +1029,24 @@ fn replay(path: &str) -> i32 {
 fn replay_crash(d: &Value, w: &Workload) -> i32 {
     let seed = d["seed"].as_u64().unwrap_or(DEFAULT_SEED);
     let Some(t) = tier(d["tier"].as_str().unwrap_or("quick")) else { return 2 };
-    let same = |a: &Workload, b: &Workload| a.capacity == b.capacity && a.mode == b.mode && a.producers == b.producers && a.controller == b.controller;
-    if !same(&generate(seed, w.id), w) {
+    let g = generate(seed, w.id);
+    if g.channels != w.channels || g.senders != w.senders || g.max_buffered != w.max_buffered {
         eprintln!("workload generator changed since this file was written; cannot re-create scenario {}", w.id);
         return 2;
     }
-    let dir = std::env::temp_dir().join(format!("c20-crash-replay-{}", std::process::id()));
+    let dir = std::env::temp_dir().join(format!("c12t-crash-replay-{}", std::process::id()));
     let exe = std::env::current_exe().unwrap();
     let r = run_worker(&exe, &t, seed, &dir, &[w.id]);
     let _ = std::fs::remove_dir_all(&dir);
     match r {
         Ok(o) if o.crashed.is_some() => {
-            println!("REPRODUCED oracle=C20.ub kind=process_crash detail=exploring process died again ({})", o.crashed.unwrap().1);
+            println!("REPRODUCED oracle=C12.progress kind=process_crash detail=exploring process died again ({})", o.crashed.unwrap().1);
             println!("VIOLATION property={PROP} replay=(crash of scenario {})", w.id);
             1
         }
         Ok(o) if o.results.iter().any(|r| r["failures"].as_array().map(|a| !a.is_empty()).unwrap_or(false)) => {
-            // what a read of a never-written slot does depends on the allocator; the same
-            // exploration still violates C20, only not by killing the process this time
             let kinds: BTreeSet<String> = o.results.iter().flat_map(|r| r["failure_counts"].as_object().into_iter().flatten().map(|(k, _)| k.clone())).collect();
-            println!("REPRODUCED-WITH-DIFFERENT-TRACE oracle=C20.ub kind=process_crash detail=no crash this time, the same exploration fails with {kinds:?}");
+            println!("REPRODUCED-WITH-DIFFERENT-TRACE oracle=C12.progress kind=process_crash detail=no crash this time, the same exploration fails with {kinds:?}");
             println!("VIOLATION property={PROP} replay=(scenario {})", w.id);
             1
         }
